@@ -41,10 +41,29 @@ class Ctx(object):
         self.functions = []
         self.adversary = adversary or {}
         self.solve_calls = 0
+        self.n_free = 0
+        self.free = []
 
     def choice_rng(self):
         self.n_choice += 1
         return random.Random("%s/choice/%d" % (self.dir_seed, self.n_choice))
+
+    def unit(self, d, rng):
+        """a unit vector chosen inside a step: the adversary's if it fixed the k-th one, a random one otherwise"""
+        self.n_unit = getattr(self, "n_unit", 0) + 1
+        u = self.adversary.get("units", {}).get(self.n_unit - 1)
+        if u is None or len(u) != d:
+            u = np.array([rng.gauss(0, 1) for _ in range(d)])
+        u = np.asarray(u, dtype=float)
+        return u / max(np.linalg.norm(u), 1e-12)
+
+    def level(self, rng, options):
+        """a number in [0, 1] chosen inside a step (how inexact an admissible answer is)"""
+        self.n_level = getattr(self, "n_level", 0) + 1
+        t = self.adversary.get("levels", {}).get(self.n_level - 1)
+        if t is None:
+            return rng.choice(options)
+        return min(1.0, max(0.0, float(t)))
 
 
 # ---- algebra -------------------------------------------------------------------------------------------------
@@ -83,7 +102,9 @@ class NPt(object):
 
     def __pow__(self, p):
         assert p == 2
-        return NEx(float(self.v @ self.v))
+        e = NEx(float(self.v @ self.v))
+        e.sq_of = self.v              # remembered so that  p**2 == 0  can be solved as the smooth system  p = 0
+        return e
 
     def eval(self):
         return self.v
@@ -145,7 +166,10 @@ class NEx(object):
         return self.__ge__(o)
 
     def __eq__(self, o):
-        return NCons(self.x - self._c(o), "equality")
+        c = NCons(self.x - self._c(o), "equality")
+        if getattr(self, "sq_of", None) is not None and self._c(o) == 0:
+            c.residual = self.sq_of
+        return c
 
     def __hash__(self):
         return id(self)
@@ -452,6 +476,12 @@ class NPEP(object):
         else:
             hook = CTX.adversary.get("member")
             m = hook(cls, params, rng, CTX.dim) if hook else None
+            th = CTX.adversary.get("thetas", {}).get(CTX.n_decl - 1)
+            if m is None and th is not None:
+                from pv.ref import hard
+                if CTX.adversary.get("common_centre"):
+                    th = list(th[:6]) + [0.5, 0.5]          # centre at the origin for every declared function
+                m = hard.member(cls, params, th, CTX.dim)
             if m is None:
                 m = M.make_member(cls, params, rng, dim=CTX.dim)
                 tries = 0
@@ -484,6 +514,10 @@ class NPEP(object):
         hook = CTX.adversary.get("direction")
         if hook:
             u = hook(CTX.n_init - 1, u, CTX)
+        fixed = CTX.adversary.get("dirs", {}).get(CTX.n_init - 1)
+        if fixed is not None and len(fixed) == CTX.dim:
+            u = np.asarray(fixed, dtype=float)
+            u = u / max(np.linalg.norm(u), 1e-12)
         anchor = CTX.anchor if CTX.anchor is not None else np.zeros(CTX.dim)
         return NPt(anchor + CTX.scale * u, name)
 
@@ -567,8 +601,7 @@ def proximal_step(x0, f, gamma):
 def inexact_gradient_step(x0, f, gamma, epsilon, notion='absolute'):
     g = f._grad(x0.v)
     rng = CTX.choice_rng()
-    u = np.array([rng.gauss(0, 1) for _ in range(len(g))])
-    u = u / max(np.linalg.norm(u), 1e-12)
+    u = CTX.unit(len(g), rng)
     mode = CTX.adversary.get("inexact", "random")
     if mode == "along_gradient" and np.linalg.norm(g) > 0:
         u = g / np.linalg.norm(g)          # shortens the step the most
@@ -636,9 +669,8 @@ def epsilon_subgradient_step(x0, f, gamma):
     """g0 is an exact subgradient at a nearby point y, hence an eps-subgradient at x0 with
     eps = f(x0) - f(y) - <g0, x0 - y> (the smallest eps for which it is one)."""
     rng = CTX.choice_rng()
-    delta = CTX.scale * rng.choice([0.0, 0.05, 0.2, 0.5, 1.0])
-    u = np.array([rng.gauss(0, 1) for _ in range(len(x0.v))])
-    u = u / max(np.linalg.norm(u), 1e-12)
+    delta = CTX.scale * 2.0 * CTX.level(rng, [0.0, 0.025, 0.1, 0.25, 0.5])
+    u = CTX.unit(len(x0.v), rng)
     y = x0.v + delta * u
     g0 = f._grad(y)
     eps = f._value(x0.v) - f._value(y) - float(g0 @ (x0.v - y))
@@ -653,12 +685,11 @@ def inexact_proximal_step(x0, f, gamma, opt='PD_gapII'):
     s = float(np.linalg.norm(x0.v - p)) + 1e-3
     theta = CTX.adversary.get("inexact_level")
     if theta is None:
-        theta = rng.choice([0.0, 0.02, 0.05, 0.1, 0.2, 0.4])
+        theta = 0.5 * CTX.level(rng, [0.0, 0.04, 0.1, 0.2, 0.4, 0.8])
     d = len(p)
 
     def unit():
-        u = np.array([rng.gauss(0, 1) for _ in range(d)])
-        return u / max(np.linalg.norm(u), 1e-12)
+        return CTX.unit(d, rng)
 
     if opt == 'PD_gapI':
         x = p + theta * s * unit()
@@ -763,6 +794,17 @@ class _FreeLeaf(object):
         raise Unsupported("free leaf Point()/Expression() in an example")
 
 
+class _FreePoint(object):
+    """Point(): a point the example leaves free and ties by equality constraints; its coordinates are unknowns that
+    run_numeric solves for (see _solve_free)."""
+
+    def __call__(self, *a, **kw):
+        k = CTX.n_free
+        CTX.n_free += 1
+        v = CTX.free[k] if k < len(CTX.free) else np.zeros(CTX.dim)
+        return NPt(np.array(v, dtype=float))
+
+
 def patch_module(mod):
     """Swap the numeric API into an example module. Returns a restore() callable."""
     saved = {}
@@ -773,7 +815,10 @@ def patch_module(mod):
         elif name in NUMERIC_STEPS:
             saved[name] = val
             setattr(mod, name, NUMERIC_STEPS[name])
-        elif name in ("Point", "Expression"):
+        elif name == "Point":
+            saved[name] = val
+            setattr(mod, name, _FreePoint())
+        elif name == "Expression":
             saved[name] = val
             setattr(mod, name, _FreeLeaf())
         elif name in ("null_point",):
@@ -798,24 +843,66 @@ def run_numeric(func_module, func_name, kwargs, member_seed, dir_seed, dim, adve
     real_mod = importlib.import_module(fn.__module__)
     restore = patch_module(real_mod)
 
-    def once(scale):
+    import inspect
+    accepted = inspect.signature(fn).parameters
+    call_kw = dict(kwargs)
+    for k_, v_ in (("wrapper", "cvxpy"), ("solver", None), ("verbose", -1)):
+        if k_ in accepted:
+            call_kw[k_] = v_
+    free_cache = {"z": None}
+
+    def execute(scale, free):
         global CTX
         CTX = Ctx(member_seed, dir_seed, dim, scale, adversary)
+        CTX.free = free
+        if free:
+            CTX.anchor = np.array(free[0], dtype=float)
         with contextlib.redirect_stdout(io.StringIO()):
-            out = fn(**kwargs, wrapper="cvxpy", solver=None, verbose=-1)
-        perf = out[0]
+            out = fn(**call_kw)
+        return out[0], CTX
+
+    def residuals(ctx):
+        r = []
+        for c, tag in ctx.constraints:
+            if c.kind == "equality":
+                res = getattr(c, "residual", None)
+                r.extend(list(res) if res is not None else [c.value])
+        return np.array(r, dtype=float)
+
+    def once(scale):
+        perf, ctx = execute(scale, free_cache["z"] or [])
+        if ctx.n_free:
+            # the example left ctx.n_free points free: solve its equality constraints for their coordinates
+            from scipy.optimize import least_squares
+            nf = ctx.n_free
+            z0 = np.concatenate(free_cache["z"]) if free_cache["z"] else np.zeros(nf * dim)
+
+            def fun(z):
+                _p, c2 = execute(scale, [z[i * dim:(i + 1) * dim] for i in range(nf)])
+                return residuals(c2)
+            if len(fun(z0)) == 0:
+                raise Unsupported("free point without equality constraints")
+            sol = least_squares(fun, z0, xtol=1e-15, ftol=1e-15, gtol=1e-15, max_nfev=200)
+            if np.linalg.norm(sol.fun) > 1e-11 * (1.0 + np.linalg.norm(sol.x)):
+                raise Unsupported("free point equations not solved (residual %.2e)" % np.linalg.norm(sol.fun))
+            free_cache["z"] = [sol.x[i * dim:(i + 1) * dim] for i in range(nf)]
+            perf, ctx = execute(scale, free_cache["z"])
         worst = -float("inf")
-        for c, tag in CTX.constraints:
+        for c, tag in ctx.constraints:
+            if getattr(c, "residual", None) is not None:
+                continue              # solved as a system above; its accuracy was checked there
             worst = max(worst, c.violation())
-        return perf, worst, CTX
+        return perf, worst, ctx
 
     try:
         # find the largest scale for which every declared constraint holds (bisection on a monotone feasibility)
         lo, hi = 0.0, 1.0
         perf, worst, ctx = once(hi)
         n = 0
+        worst_at_lo = None
         while worst <= 0 and hi < 1e6 and n < 30:
             lo = hi
+            worst_at_lo = worst
             hi *= 2
             perf, worst, ctx = once(hi)
             n += 1
@@ -825,14 +912,20 @@ def run_numeric(func_module, func_name, kwargs, member_seed, dir_seed, dim, adve
                 return {"perf": perf, "scale": 1.0, "worst_constraint": 0.0, "n_constraints": 0,
                         "members": [f.member.describe() for f in ctx.functions]}
             raise Unsupported("constraints never become active")
-        for _ in range(max_iter):
+        w_lo, w_hi = (worst_at_lo if lo > 0 else None), worst
+        for it in range(max_iter):
             mid = 0.5 * (lo + hi)
+            if w_lo is not None and w_lo < 0 < w_hi and it % 3 != 2:
+                # regula falsi on the signed worst constraint value (continuous in the scale); bisection every third step
+                cand = lo + (hi - lo) * (-w_lo) / (w_hi - w_lo)
+                if lo + 1e-3 * (hi - lo) < cand < hi - 1e-3 * (hi - lo):
+                    mid = cand
             perf, worst, ctx = once(mid)
             if worst <= 0:
-                lo = mid
+                lo, w_lo = mid, worst
             else:
-                hi = mid
-            if hi - lo < 1e-12 * max(1.0, hi):
+                hi, w_hi = mid, worst
+            if hi - lo < 1e-11 * max(1.0, hi) or (worst <= 0 and worst > -1e-13):
                 break
         if lo <= 0:
             raise InvalidRun("no feasible initial scale")
@@ -843,7 +936,8 @@ def run_numeric(func_module, func_name, kwargs, member_seed, dir_seed, dim, adve
             if c.kind == "equality" and abs(c.value) > 1e-7 * (1 + abs(perf)):
                 raise InvalidRun("an equality constraint is off by %.3e" % c.value)
         return {"perf": perf, "scale": lo, "worst_constraint": worst, "n_constraints": len(ctx.constraints),
-                "members": [f.member.describe() for f in ctx.functions]}
+                "members": [f.member.describe() for f in ctx.functions], "n_decl": ctx.n_decl, "n_init": ctx.n_init,
+                "n_unit": getattr(ctx, "n_unit", 0), "n_level": getattr(ctx, "n_level", 0)}
     finally:
         restore()
         CTX = None
